@@ -29,9 +29,16 @@ Inductive sclass : Type :=
 | SNoContract     (* checks, declares no contract *)
 | STwoContracts.  (* checks, declares two contracts *)
 
-(* a contract source: class, index of the declared contract name, shape of its declarations
-   (fields / nested types, decides update compatibility and removability), version marker *)
-Record source : Type := mkSrc { s_class : sclass; s_decl : Z; s_shape : Z; s_ver : Z }.
+(* nested type declarations of the contract, in source order (Cadence allows nested type
+   declarations only directly inside the contract, so the declaration tree has depth one) *)
+Inductive dkind : Type := KStruct | KResource | KEvent | KEnum | KSIface | KRIface.
+(* kind, name, number of enum cases (enums only: case x [, case y]) *)
+Record ndecl : Type := mkD { d_kind : dkind; d_name : Z; d_cases : Z }.
+
+(* a contract source: class, index of the declared contract name, variant of its fields
+   (0 {a: Int}; 1 {a: Int, b: Int}; 2 {a: String}; 3 {}), nested declarations, version marker *)
+Record source : Type := mkSrc {
+  s_class : sclass; s_decl : Z; s_fields : Z; s_decls : list ndecl; s_ver : Z }.
 
 Definition sclass_eqb (x y : sclass) : bool :=
   match x, y with
@@ -39,24 +46,68 @@ Definition sclass_eqb (x y : sclass) : bool :=
   | SParseError, SParseError | SNoContract, SNoContract | STwoContracts, STwoContracts => true
   | _, _ => false
   end.
+Definition dkind_eqb (x y : dkind) : bool :=
+  match x, y with
+  | KStruct, KStruct | KResource, KResource | KEvent, KEvent | KEnum, KEnum
+  | KSIface, KSIface | KRIface, KRIface => true
+  | _, _ => false
+  end.
+Definition ndecl_eqb (x y : ndecl) : bool :=
+  dkind_eqb (d_kind x) (d_kind y) && (d_name x =? d_name y) && (d_cases x =? d_cases y).
+Fixpoint decls_eqb (l1 l2 : list ndecl) : bool :=
+  match l1, l2 with
+  | [], [] => true
+  | x :: r, y :: t => ndecl_eqb x y && decls_eqb r t
+  | _, _ => false
+  end.
 Definition source_eqb (x y : source) : bool :=
-  sclass_eqb (s_class x) (s_class y) && (s_decl x =? s_decl y) && (s_shape x =? s_shape y) &&
-  (s_ver x =? s_ver y).
+  sclass_eqb (s_class x) (s_class y) && (s_decl x =? s_decl y) && (s_fields x =? s_fields y) &&
+  decls_eqb (s_decls x) (s_decls y) && (s_ver x =? s_ver y).
 
-(* shapes: 0 {a: Int}; 1 {a: Int, b: Int}; 2 {a: String}; 3 {}; 4 {a: Int} + enum E {x};
-   5 {a: Int} + enum E {x, y}; 6 {a: Int} + struct S {} *)
+(* ast Members.Composites(): structs, resources, events and enums; not interfaces *)
+Definition is_composite (k : dkind) : bool :=
+  match k with KSIface | KRIface => false | _ => true end.
+
+(* stdlib/contract_update_validation.go: containsEnums on a nested declaration (no further
+   nesting): it is an enum *)
+Definition decl_contains_enums (d : ndecl) : bool :=
+  match d_kind d with KEnum => true | _ => false end.
+(* ... and on the contract declaration (not itself an enum): the loop over its nested composite
+   declarations in source order, returning at the first one that contains an enum *)
+Fixpoint contains_enums_loop (l : list ndecl) : bool :=
+  match l with
+  | [] => false
+  | d :: r =>
+      if is_composite (d_kind d)
+      then if decl_contains_enums d then true else contains_enums_loop r
+      else contains_enums_loop r
+  end.
 (* removeContract: containsEnumsInProgram *)
-Definition has_enum (sh : Z) : bool := (sh =? 4) || (sh =? 5).
+Definition src_has_enum (s : source) : bool := contains_enums_loop (s_decls s).
 
-(* ContractUpdateValidator verdict old shape -> new shape (tied to the real validator by an
-   exhaustive table check on every run) *)
-Definition compat (old new : Z) : bool :=
+(* ContractUpdateValidator, fields of the contract: removal allowed, addition and retyping not
+   (tied to the real validator by a table check on every run) *)
+Definition fields_compat (old new : Z) : bool :=
   if old =? new then true
-  else if old =? 0 then (new =? 3) || (new =? 4) || (new =? 5) || (new =? 6)
-  else if old =? 1 then (new =? 0) || (new =? 3) || (new =? 4) || (new =? 5) || (new =? 6)
+  else if old =? 0 then new =? 3
+  else if old =? 1 then (new =? 0) || (new =? 3)
   else if old =? 2 then new =? 3
-  else if old =? 4 then new =? 5
   else false.
+
+Fixpoint find_decl (n : Z) (l : list ndecl) : option ndecl :=
+  match l with
+  | [] => None
+  | d :: r => if d_name d =? n then Some d else find_decl n r
+  end.
+(* checkNestedDeclarations: every old nested declaration must still exist under its name with
+   the same kind (new ones may be added, order is irrelevant); checkEnumCases: no case removed *)
+Definition decls_compat (olds news : list ndecl) : bool :=
+  forallb (fun o => match find_decl (d_name o) news with
+                    | Some n => dkind_eqb (d_kind o) (d_kind n) && (d_cases o <=? d_cases n)
+                    | None => false
+                    end) olds.
+Definition src_compat (old new : source) : bool :=
+  fields_compat (s_fields old) (s_fields new) && decls_compat (s_decls old) (s_decls new).
 
 (* ------------------------------------------------------------------ observables *)
 Inductive fail : Type :=
@@ -113,7 +164,7 @@ Definition kv : Type := ((Z * Z) * option Z)%type.   (* (account, name) -> pendi
 
 Record cstate : Type := mkC {
   codes : Z -> Z -> option source;   (* host: account, name -> code *)
-  vals : Z -> Z -> option Z;         (* committed contract values (shape they were created with) *)
+  vals : Z -> Z -> option Z;         (* committed contract values (field variant they were created with) *)
   pending : list kv;                 (* Storage.contractUpdates, in insertion order *)
   leaked : bool                      (* a pending contract value was overwritten by a removal *)
 }.
@@ -147,7 +198,7 @@ Definition c_change (st : cstate) (a n : Z) (s : source) (is_update : bool)
     | Some f => (RFail f, [], st)
     | None =>
         if (if is_update
-            then match existing with Some old => negb (compat (s_shape old) (s_shape s)) | None => false end
+            then match existing with Some old => negb (src_compat old s) | None => false end
             else false)
         then (RFail FDeploy, [], st)
         else if negb is_update && sclass_eqb (s_class s) SInitPanics
@@ -156,7 +207,7 @@ Definition c_change (st : cstate) (a n : Z) (s : source) (is_update : bool)
           (RUnit,
            [if is_update then EvUpdated a n s else EvAdded a n s],
            mkC (upd2 (codes st) a n (Some s)) (vals st)
-               (if is_update then pending st else p_set (pending st) a n (Some (s_shape s)))
+               (if is_update then pending st else p_set (pending st) a n (Some (s_fields s)))
                (leaked st))
     end.
 
@@ -165,7 +216,7 @@ Definition c_remove (st : cstate) (a n : Z) : result * list event * cstate :=
   match codes st a n with
   | None => (RNone, [], st)
   | Some old =>
-      if has_enum (s_shape old) then (RFail FRemoval, [], st)
+      if src_has_enum old then (RFail FRemoval, [], st)
       else
         (RCode old, [EvRemoved a n old],
          mkC (upd2 (codes st) a n None) (vals st) (p_set (pending st) a n None)
@@ -258,7 +309,7 @@ Definition deployable (n : Z) (s : source) (old : option source) : option fail :
   | Some f => Some f
   | None =>
       match old with
-      | Some o => if compat (s_shape o) (s_shape s) then None else Some FDeploy
+      | Some o => if src_compat o s then None else Some FDeploy
       | None => None
       end
   end.
@@ -298,7 +349,7 @@ Definition s_step (st : sstate) (o : op) : result * list event * sstate :=
       match dep st a n with
       | None => (RNone, [], st)
       | Some old =>
-          if has_enum (s_shape old) then (RFail FRemoval, [], st)
+          if src_has_enum old then (RFail FRemoval, [], st)
           else (RCode old, [EvRemoved a n old],
                 mkS (upd2 (dep st) a n None) (added st) ((a, n) :: touched st))
       end
